@@ -196,6 +196,11 @@ class TransformationTensor(ProjectiveTensor, ABC):
             raise ValueError(f"Expected tensor of type (1, 1), but is {self.tensor_shape}")
         if self.shape[-1] != self.shape[-2]:
             raise ValueError(f"Expected quadratic matrix, but last two dimensions are {self.shape[-2:]}")
+        if self.rank - 1 in self._covariant_indices:
+            # the matrix is stored with its contravariant index first (e.g. a transposed tensor): all methods work on the array
+            # and assume the covariant index first, so the same tensor is stored in that layout
+            self.array = np.swapaxes(self.array, -1, -2)
+            self._covariant_indices, self._contravariant_indices = self._contravariant_indices, self._covariant_indices
 
     def __apply__(self, transformation: TransformationTensor) -> TransformationTensor:
         return TransformationCollection.from_array(matmul(transformation.array, self.array))
